@@ -86,15 +86,25 @@ struct Holder : Base {
     o.R((I)v.size()); o.R((I)s.get_maximum_error());
     for (auto& r : v) { put_item(o, r.e); o.R(r.est); o.R(r.lb); o.R(r.ub); }
   }
+  // R = 1, image length, image bytes (the serialized image is public output; the model produces the same bytes)
   Base* roundtrip(bool stream, Out& o) override {
     o.F((I)s.get_num_active_items()); o.F((I)s.get_total_weight()); o.F((I)s.get_maximum_error());
+    Base* res;
+    std::string img;
     if (stream) {
       std::stringstream ss(std::ios::in | std::ios::out | std::ios::binary);
       s.serialize(ss);
-      return new Holder(kind, S::deserialize(ss));
+      img = ss.str();
+      res = new Holder(kind, S::deserialize(ss));
+    } else {
+      auto bytes = s.serialize();
+      img.assign((const char*)bytes.data(), bytes.size());
+      if (bytes.size() != s.get_serialized_size_bytes()) { o.R(-4); }   // size function disagrees with the image
+      res = new Holder(kind, S::deserialize(bytes.data(), bytes.size()));
     }
-    auto bytes = s.serialize();
-    return new Holder(kind, S::deserialize(bytes.data(), bytes.size()));
+    o.R(1); o.R((I)img.size());
+    for (unsigned char c : img) o.R((I)c);
+    return res;
   }
   Base* copy() override { return new Holder(kind, s); }
 };
@@ -128,7 +138,7 @@ static void handler(const Line& t, Out& o) {
   case 4: case 14: { Base& a = get(t.at(1)); Base& b = get(t.at(2)); a.merge(b, t.at(0) == 14, o); o.R(1); break; }
   case 5: get(t.at(1)).dump(o); break;
   case 6: t.at(4); get(t.at(1)).freq(t, o); break;
-  case 7: case 17: { Base* b = get(t.at(1)).roundtrip(t.at(0) == 17, o); regs[(long)t.at(2)].reset(b); o.R(1); break; }
+  case 7: case 17: { Base* b = get(t.at(1)).roundtrip(t.at(0) == 17, o); regs[(long)t.at(2)].reset(b); break; }
   case 8: { Base* b = get(t.at(1)).copy(); regs[(long)t.at(2)].reset(b); o.R(1); break; }
   default: o.R(-2);
   }
